@@ -28,6 +28,9 @@ pub fn plan_for(property: &str, seed: u64, run: u64, miri: bool) -> HistPlan {
         // long-text thread plans (1024+ characters): about a minute per Miri seed, thorough only
         knobs.long_thread_texts = true;
         knobs.max_clients = 2;
+    } else if miri && run % 3 == 2 {
+        // every third thread plan draws its texts from a pool of two (see gen_plan)
+        knobs.text_pool = true;
     }
     if !miri {
         // soak runs: long histories on one object with short texts, so that anything that
